@@ -134,6 +134,30 @@ m("c07_rec_include", "C07", r"R-REC\.vm:.*render_include", "drop the include dep
 """, "")
 m("c07_rec_block", "C07", r"R-REC\.vm:.*interpret->.*interpret", "drop the block depth guard",
   "tera/src/vm/interpreter.rs", """                    if state.blocks.len() >= MAX_BLOCK_DEPTH {""", """                    if state.blocks.len() >= MAX_BLOCK_DEPTH && state.for_loops.len() > 1000 {""")
+m("c07_span_dropped", "C07", r"C07\.SPAN:compile_expr:RunTest", "test instruction emitted without its span",
+  "tera/src/parsing/compiler.rs", "self.chunk.add(Instruction::RunTest(test.name), Some(span));", "self.chunk.add(Instruction::RunTest(test.name), None);")
+m("c07_utf8_bytes_raw", "C07", r"C07\.UTF8:value::Value::format", "bytes values written raw instead of lossily",
+  "tera/src/value/mod.rs", "ValueInner::Bytes(v) => f.write_all(String::from_utf8_lossy(v).as_bytes()),", "ValueInner::Bytes(v) => f.write_all(v),")
+m("c07_pair_endcapture", "C07", r"C07\.PAIR:compile_node:Capture", "filter section without kwargs skips EndCapture",
+  "tera/src/parsing/compiler.rs", """                self.chunk
+                    .add(Instruction::EndCapture, Some(f.name.span().clone()));
+                self.compile_kwargs(f.kwargs);""", """                if !f.kwargs.is_empty() || !f.name.node().is_empty() {
+                    self.chunk
+                        .add(Instruction::EndCapture, Some(f.name.span().clone()));
+                }
+                self.compile_kwargs(f.kwargs);""")
+m("c07_pair_break_capture", "C07", r"C07\.PAIR:parser:capture-blocks-break", "break allowed inside captures",
+  "tera/src/parsing/parser.rs", """                    if *ctx == BodyContext::Capture {
+                        return Err(Error::syntax_error(""", """                    if *ctx == BodyContext::ComponentDefinition {
+                        return Err(Error::syntax_error(""")
+m("c07_pair_blocks_pop", "C07", r"C07\.PAIR:vm:blocks-push-pop", "block stack popped after the error check",
+  "tera/src/vm/interpreter.rs", """                    state.current_block_name = old_block_name;
+                    state.blocks.pop();
+                    res?;""", """                    state.current_block_name = old_block_name;
+                    res?;
+                    state.blocks.pop();""")
+m("c07_iter_unchecked", "C07", r"C07\.ITER:vm:ForLoop::new", "iteration check skipped for comprehensions",
+  "tera/src/vm/interpreter.rs", "                    if !container.can_be_iterated_on() {", "                    if !container.can_be_iterated_on() && !matches!(instr, Instruction::StartIterateComprehension(_)) {")
 # ---------------------------------------------------------------- C08
 m("c08_trim_comment", "C08", r"C08\.TRIM:.*arm=Comment", "re-introduce the leaked trim flag through comments",
   "tera/src/parsing/lexer.rs", "            remove_leading_ws = end_ws;\n", "            if end_ws {\n                remove_leading_ws = true;\n            }\n")
